@@ -6,6 +6,8 @@ Never leaves /repo modified (git checkout -- . in a finally block)."""
 import json, os, re, subprocess, sys, time
 
 VERIF = os.path.dirname(os.path.dirname(os.path.abspath(__file__)))
+# evidence written while /repo is modified must never land in /verif/evidence
+os.environ["IPT_EVIDENCE_DIR"] = os.path.join(VERIF, "build", "evidence-scratch")
 REPO = "/repo"
 MOD = "src/prayer_times/mod.rs"
 DATE = "src/prayer_times/date.rs"
